@@ -28,7 +28,7 @@ Lemma thread_max_ext cf hr' pw :
   thread_max (with_hr cf hr') pw = thread_max cf pw.
 Proof.
   induction 1 as [|x pw Hx _ IH]; [reflexivity|].
-  cbn [thread_max with_hr cf_hr cf_cap cf_tc]. rewrite Hx.
+  cbn [thread_max with_hr cf_hr cf_cap cf_tc w_sub w_add wops_Z]. rewrite Hx.
   change (thread_max (with_hr cf hr') pw) with (thread_max (with_hr cf hr') pw) in IH.
   cbn [with_hr] in IH. rewrite IH. reflexivity.
 Qed.
@@ -80,7 +80,7 @@ Qed.
 
 Lemma init_eq : init_state cf' p0 = init_state cf p0.
 Proof.
-  unfold init_state. change (cf_vw cf') with vw. change (cf_k cf') with k.
+  unfold init_state. rewrite !wloads_Z. change (cf_vw cf') with vw. change (cf_k cf') with k.
   change (cf_vw cf) with vw. change (cf_k cf) with k.
   rewrite (thread_max_loads p0). reflexivity.
 Qed.
